@@ -234,7 +234,7 @@ struct Var
 // variants 8 and 9 reassemble to 65535 / 65519..65520 bytes (the largest messages the 16-bit length field admits)
 static const Var kVar[10] = {
     {{5, 5, 5}, 1, 0, 1, false},     {{1, 0, 5}, 65534, 3, 1, false}, {{0, 5, 1}, 65535, 20, 2, false}, {{6, 1, 0}, 0, 0, 1, true},
-    {{5, 5, 5}, 65535, 3, 1, true},  {{0, 0, 0}, 1, 0, 2, false},     {{1, 1, 1}, 65533, 20, 1, false}, {{6, 0, 1}, 65534, 0, 2, true},
+    {{5, 5, 5}, 65535, 3, 1, true},  {{0, 0, 0}, 32766, 0, 2, false}, {{1, 1, 1}, 32767, 20, 1, false}, {{6, 0, 1}, 254, 0, 2, true},
     {{40000, 25535, 0}, 65534, 0, 1, false}, {{65519, 0, 1}, 1, 3, 1, true},
 };
 
@@ -571,7 +571,7 @@ static Bytes symbolFrame(int sym, const ref::ReassemblyModel& m, bool& isNull, i
                 f.push_back((uint8_t) (0xE0 + i));
             return f;
         }
-        case 4: fh.seq = 200; fh.version = 2; fh.msgType = ref::MT_STATUS; return ref::buildFrame(fh, {seg(ref::SEG_FIRST, 0, 6)});
+        case 4: fh.seq = 32767; fh.version = 2; fh.msgType = ref::MT_STATUS; return ref::buildFrame(fh, {seg(ref::SEG_FIRST, 0, 6)});   // continuation crosses 0x7FFF -> 0x8000
         case 5: fh.seq = next; fh.version = over; fh.msgType = otyp; return ref::buildFrame(fh, {seg(ref::SEG_MID, 3, 7)});
         case 6: fh.seq = next; fh.version = over; fh.msgType = otyp; return ref::buildFrame(fh, {seg(ref::SEG_LAST, 2, 8)});
         case 7: fh.seq = (uint16_t) (next + 1); fh.version = over; fh.msgType = otyp; return ref::buildFrame(fh, {seg(ref::SEG_MID, 3, 9)});
@@ -884,7 +884,7 @@ static BaseHist baseHistory(int which)
     else
     {
         // independent builder, counters 65530.. crossing the wrap inside a 4-segment message
-        uint16_t seq = 65530;
+        uint16_t seq = which == 3 ? 65530 : 32762;   // base 4 crosses the sign boundary 0x7FFF -> 0x8000 instead of the wrap
         unsigned tag = 200;
         auto fh = [&]() {
             ref::FrameHdr x;
@@ -1098,7 +1098,7 @@ int main(int argc, char** argv)
     const std::string prop = opt.prop;
     const bool thorough = opt.tier == "thorough";
     run.assumptions = {
-        "segment payload sizes are drawn from {0,1,5,6} plus two variants that reassemble to 65535 and 65519/65520 bytes, trailing bytes from {0,3,20}, start counters from {0,1,65533,65534,65535}",
+        "segment payload sizes are drawn from {0,1,5,6} plus two variants that reassemble to 65535 and 65519/65520 bytes, trailing bytes from {0,3,20}, start counters from {0,1,254,32766,32767,65534,65535} (byte carry, sign boundary and wrap of the 16-bit counter)",
         "four endpoints (1,1) (1,2) (2,1) (0x0101,1): pairs differ only in the stream id, only in the low byte and only in the high byte of the device id",
         "VERIF_SEED is ignored: nothing is sampled",
     };
@@ -1176,14 +1176,14 @@ int main(int argc, char** argv)
             return run.run_single(readCase(opt.case_file));
         const int maxFaults = thorough ? 3 : 2;
         std::vector<BaseHist> bases;
-        for (int b = 0; b < 4; ++b)
+        for (int b = 0; b < 5; ++b)
             bases.push_back(baseHistory(b));
         for (int nf = 0; nf <= maxFaults; ++nf)
         {
             // outer: (base, first fault kind, first fault position)
             struct T { int base, kind, pos; };
             std::vector<T> ts;
-            for (int b = 0; b < 4; ++b)
+            for (int b = 0; b < 5; ++b)
             {
                 if (nf == 0)
                 {
@@ -1194,7 +1194,7 @@ int main(int argc, char** argv)
                     for (size_t p = 0; p < bases[b].frames.size(); ++p)
                         ts.push_back({b, k, (int) p});
             }
-            run.round(fmt("all fault sequences with exactly %d fault(s) on 4 base histories", nf), ts.size(), [&, nf, ts](W& w, uint64_t o) {
+            run.round(fmt("all fault sequences with exactly %d fault(s) on 5 base histories", nf), ts.size(), [&, nf, ts](W& w, uint64_t o) {
                 const T& t = ts[o];
                 const BaseHist& h = bases[t.base];
                 FaultCase fc;
@@ -1239,8 +1239,8 @@ int main(int argc, char** argv)
             });
         }
         run.extra.push_back({"max_faults", mc::Json::num((uint64_t) maxFaults)});
-        run.rule = "4 base histories (real encoder output for [small,small,3-seg,small,2-seg,4-seg,small] at (0,40) and (64,100), the same for two "
-                   "endpoints interleaved round-robin, a hand-built stream crossing the 65535->0 wrap) x ALL sequences of <= k faults from "
+        run.rule = "5 base histories (real encoder output for [small,small,3-seg,small,2-seg,4-seg,small] at (0,40) and (64,100), the same for two "
+                   "endpoints interleaved round-robin, a hand-built stream crossing the 65535->0 wrap, the same crossing 32767->32768) x ALL sequences of <= k faults from "
                    "{drop, duplicate-after, duplicate-two-later, swap, corrupt-version, corrupt-type} at every position; distinct = distinct delivery "
                    "patterns (which sent packet is delivered at which position)";
         return run.finish();
